@@ -312,7 +312,11 @@ func Mutants(t *rapid.T, root *model.Node, valid jv.V, kinds map[string]bool, o 
 			}
 		}
 		if kinds["enum"] && n.Kind == model.KEnum {
-			for _, nm := range NonMembers(n) {
+			var extra []jv.V
+			if o != nil {
+				extra = o.OtherEnumValues
+			}
+			for _, nm := range NonMembers(n, extra...) {
 				add(p, p.Replace(nm), p.Path, "enum:nonmember:"+nm.K.String())
 			}
 		}
@@ -323,8 +327,10 @@ func Mutants(t *rapid.T, root *model.Node, valid jv.V, kinds map[string]bool, o 
 // NonMembers returns values of every JSON type that are not members of the
 // enum: neighbours of numeric members, case/spacing variants of strings,
 // "1" vs 1, true vs "true".
-func NonMembers(n *model.Node) []jv.V {
-	var cands []jv.V
+func NonMembers(n *model.Node, extra ...jv.V) []jv.V {
+	// extra: members of other enums of the same schema (a value another enum lists is the
+	// likeliest thing to be accepted by mistake)
+	cands := append([]jv.V{}, extra...)
 	for _, m := range n.EnumVals {
 		switch m.K {
 		case jv.Str:
